@@ -116,6 +116,13 @@ var targets = []target{
 		Locals: []string{"delta"}, Calls: []string{"deleteOldestFeedValue"}, Guards: true, Conds: true},
 	{Group: "Oracle", Mod: "oracle", Pkg: "keeper", Func: "Keeper.EditFeed", Lean: "EditFeed",
 		Locals: []string{"expectCnt", "feed_LatestHistory"}, Calls: []string{"deleteOldestFeedValue"}, Guards: true, Conds: true},
+	{Group: "Genesis", Mod: "htlc", Pkg: "", Func: "InitGenesis", Lean: "HtlcInitGenesis", Guards: true, Conds: true},
+	{Group: "Genesis", Mod: "mt", Pkg: "", Func: "InitGenesis", Lean: "MtInitGenesis",
+		Locals: []string{"mtSequence"}, Calls: []string{"SetDenomSequence", "SetMTSequence"}},
+	{Group: "Genesis", Mod: "coinswap", Pkg: "keeper", Func: "Keeper.InitGenesis", Lean: "CoinswapInitGenesis",
+		Calls: []string{"setSequence"}, Guards: true, Conds: true},
+	{Group: "Genesis", Mod: "farm", Pkg: "", Func: "InitGenesis", Lean: "FarmInitGenesis",
+		Calls: []string{"SetSequence"}, Guards: true, Conds: true},
 	{Group: "Random", Mod: "random", Pkg: "types", Func: "PRNG.GetRand", Lean: "GetRand",
 		Locals: []string{"seedBT", "seedBH", "seedTI", "seedSum", "seedOS", "precision"}, Conds: true},
 	{Group: "TokenFee", Mod: "token", Pkg: "keeper", Func: "Keeper.MintToken", Lean: "MintToken",
@@ -149,6 +156,7 @@ const (
 	kCoin
 	kCoins
 	kBytes
+	kLit // an untyped literal made by the translator (x++ is x = x + 1): takes the other operand's type
 	kBool
 	kStr
 	kNat // unsigned machine integers
@@ -402,6 +410,10 @@ func (t *tr) expr(e ast.Expr, out *[]string) (string, kind) {
 			}
 		}
 		t.fail(x, "selector %s", types.ExprString(x))
+	case *ast.BasicLit:
+		if tv.Type == nil && x.Kind == token.INT {
+			return x.Value, kLit
+		}
 	case *ast.IndexExpr:
 		if p, ok := t.fieldPath(x); ok {
 			return t.addParam(p, k, x), k
@@ -439,6 +451,9 @@ func (t *tr) expr(e ast.Expr, out *[]string) (string, kind) {
 			return "(" + a + " " + op + " " + b + ")", kBool
 		}
 		*out = append(*out, rhs...)
+		if bk == kLit {
+			b, bk = "("+b+" : "+leanType(ak)+")", ak
+		}
 		if ak == kErr && bk == kErr { // err != nil / err == nil
 			if x.Op == token.NEQ {
 				return "(!(" + a + " == " + b + "))", kBool
@@ -949,6 +964,14 @@ func translateLocals(p *packages.Package, fd *ast.FuncDecl, tg target, knownGo m
 	}
 	count := map[string]int{}
 	ast.Inspect(fd.Body, func(n ast.Node) bool {
+		if id, ok := n.(*ast.IncDecStmt); ok {
+			// x++ / x-- is x = x ± 1
+			tok := token.ADD_ASSIGN
+			if id.Tok == token.DEC {
+				tok = token.SUB_ASSIGN
+			}
+			n = &ast.AssignStmt{Lhs: []ast.Expr{id.X}, Tok: tok, TokPos: id.TokPos, Rhs: []ast.Expr{&ast.BasicLit{Kind: token.INT, Value: "1", ValuePos: id.TokPos}}}
+		}
 		as, ok := n.(*ast.AssignStmt)
 		if !ok || len(as.Lhs) != len(as.Rhs) {
 			return true
